@@ -14,7 +14,7 @@ from bctmc.tally import Tally
 
 PROPERTY = 'C08'
 RULE = ('the structured 7-10 node family of bctmc/named.py (binary, lengths {1,2},{1,2,3}, near-tie) and all binary digraphs n<=4 and graphs n<=5; lengths {1,2} on 4-node graphs and 3-node digraphs, {1,2,3} and the near-tie alphabet {1,2,2+2^-20} on 3-node '
-        'digraphs (thorough: lengths {1,2} on all 4-node digraphs and 5-node graphs, binary graphs n=6); non-trivial = '
+        'digraphs and binary graphs n=6 (thorough: lengths {1,2} on all 4-node digraphs and 5-node graphs); non-trivial = '
         'graph with a source-target pair joined by >= 2 distinct shortest paths, or with an unreachable ordered pair while '
         'some pair is >= 2 hops apart')
 ASSUMPTIONS = ['float64 inputs, integer lengths (exact sums)',
@@ -28,7 +28,7 @@ FAMILIES = {
     'len_und4b': (False, 4, (0, 1, 2, 3), 'q'),
     'neartie_und4': (False, 4, (0, 1, 2, 2 + 2.0 ** -20), 'q'), 'neartie_dir3': (True, 3, (0, 1, 2, 2 + 2.0 ** -20), 'q'),
     'len_dir4': (True, 4, (0, 1, 2), 't'), 'len_und5': (False, 5, (0, 1, 2), 't'),
-    'bin_und6': (False, 6, BIN, 't'),
+    'bin_und6': (False, 6, BIN, 'q'),
 }
 
 
